@@ -22,3 +22,8 @@ package types
 //@   trusted
 //@   returns err
 //@ end
+//@ func ValidateResponseOutput
+//@   property C07, C08
+//@   trusted
+//@   returns err
+//@ end
